@@ -26,7 +26,7 @@ class Scenario(object):
     """benchmarks: list of names; one suite S, one executor E, experiment T (+ optional second experiment)"""
 
     def __init__(self, wd, benchmarks, invocations, iterations, crits, data_file='t.data',
-                 second_exp=None, profile=False):
+                 second_exp=None, profile=False, third_exp=None):
         self.wd = wd
         self.benchmarks = list(benchmarks)
         self.invocations = invocations
@@ -34,6 +34,7 @@ class Scenario(object):
         self.crits = crits             # extra criteria per data point
         self.data_file = data_file
         self.second_exp = second_exp   # None | dict(benchmarks=[...], data_file=None|name)
+        self.third_exp = third_exp     # same, experiment V (suite S3, executor E3)
         self.profile = profile
         self.serial = SERIAL_BASE
         self.session = 0
@@ -56,13 +57,20 @@ class Scenario(object):
             exps['U'] = {'suites': ['S2'], 'executions': ['E2']}
             if self.second_exp.get('data_file'):
                 exps['U']['data_file'] = self.second_exp['data_file']
+        if self.third_exp:
+            suites['S3'] = {'gauge_adapter': 'RebenchLog', 'command': 'h3 %(benchmark)s',
+                            'benchmarks': list(self.third_exp['benchmarks'])}
+            executors['E3'] = {'path': '.', 'executable': 'exe3'}
+            exps['V'] = {'suites': ['S3'], 'executions': ['E3']}
+            if self.third_exp.get('data_file'):
+                exps['V']['data_file'] = self.third_exp['data_file']
         return {'default_experiment': 'T', 'default_data_file': self.data_file,
                 'runs': {'invocations': self.invocations},
                 'benchmark_suites': suites, 'executors': executors, 'experiments': exps}
 
     @property
     def data_path(self):
-        return os.path.join(self.wd, self.data_file)
+        return os.path.join(self.wd, self.data_file + ('.profiles' if self.profile else ''))
 
     def next_serial(self):
         self.serial += 1
@@ -105,7 +113,8 @@ class Scenario(object):
 
     def run(self, extra_argv=(), filters=()):
         self.session += 1
-        return drive.run_session(self.wd, list(extra_argv) + [self.conf] + list(filters), self.script)
+        with cached_config():
+            return drive.run_session(self.wd, list(extra_argv) + [self.conf] + list(filters), self.script)
 
     def read(self):
         if not os.path.exists(self.data_path):
@@ -125,6 +134,36 @@ class Scenario(object):
                 for (c, s) in dp:
                     idx[s] = (st['n'], j, c)
         return idx
+
+
+_CONFIG_CACHE = {}
+
+
+@contextlib.contextmanager
+def cached_config():
+    """Loading + schema validation of the (unchanged) configuration file costs more than the rest of
+    a session (pykwalify re-reads its schema with a pure-Python YAML parser every time).  The
+    data-file properties do not concern configuration loading: the validated raw configuration is
+    memoised per (file, mtime, size) and handed out as a deep copy.  Patched from outside at the
+    name `rebench.rebench.load_config`."""
+    import copy
+    from rebench import rebench as rb_main
+    real = rb_main.load_config
+
+    def memo(file_name):
+        try:
+            st = os.stat(file_name)
+            key = (os.path.abspath(file_name), st.st_mtime_ns, st.st_size)
+        except OSError:
+            return real(file_name)
+        if key not in _CONFIG_CACHE:
+            _CONFIG_CACHE[key] = real(file_name)
+        return copy.deepcopy(_CONFIG_CACHE[key])
+    rb_main.load_config = memo
+    try:
+        yield
+    finally:
+        rb_main.load_config = real
 
 
 # ------------------------------------------------------------ independent parser
@@ -164,9 +203,11 @@ def parse_file(text):
                 d['exe'] = cols[6]
                 d['run_col'] = int(cols[14])
             elif (len(cols) == 13 and cols[0].isdigit() and cols[1].isdigit() and cols[11].isdigit()
-                  and cols[12].startswith('[')):
+                  and cols[12].startswith('[') and _is_json(cols[12])):
                 # profile data line: invocation, numIterations, run columns, json
                 d['kind'] = 'prof'
+                d['crit'] = 'profile'
+                d['json'] = cols[12]
                 d['inv'] = int(cols[0])
                 d['bench'] = cols[2]
                 d['exe'] = cols[3]
@@ -178,6 +219,14 @@ def parse_file(text):
         out.append(d)
         pos = end
     return out
+
+
+def _is_json(t):
+    try:
+        json.loads(t)
+        return True
+    except ValueError:
+        return False
 
 
 def payload_tables(lines, key_of_bench, key_of_run):
